@@ -220,6 +220,8 @@ def led_res(a, d):
     if fn(d[2]) is None:
         return 'DecodingError'
     if fn(d[2]) == FN_BLINK:
+        if not 1 <= d[3] <= 0xf9:
+            return 'DecodingError'          # on-duration outside 01h..F9h has no meaning for a blinking LED
         r['local_off_duration'] = d[2] * 10
         r['local_on_duration'] = d[3] * 10
     r['local_color'] = d[4]
